@@ -10,13 +10,13 @@ open Raptor Raptor.Driver
 def rdPer (np : Nat) : Rd (List (List Int)) := (List.range np).mapM fun _ => rdVec
 
 def scenName : Nat → String
-  | 0 => "packages" | 1 => "matops" | 2 => "amg_rs" | 3 => "amg_sa" | 4 => "repartition" | _ => "packages_back_to_back"
+  | 0 => "packages" | 1 => "matops" | 2 => "amg_rs" | 3 => "amg_sa" | 4 => "repartition" | 6 => "mis2_directed" | _ => "packages_back_to_back"
 
 def checkSame : Rd Verdict := do
   let scen ← rdNat; let np ← rdNat; let mode ← rdNat; let site ← rdInt; let _perm ← rdNat; let delay ← rdNat
   let wc ← rdNat; let wm ← rdNat; let dl ← rdNat
   let refs ← rdPer np; let gots ← rdPer np; let refr ← rdPer np; let gotr ← rdPer np
-  let path := s!"C05/same/{scenName scen}/mode{mode}" ++ (if mode == 3 then s!"/site{site}" else "")
+  let path := s!"C05/same/{scenName scen}/mode{mode}" ++ (if mode == 3 || mode == 5 then s!"/site{site}" else "")
   let feats := ["same", scenName scen, s!"np{np}", s!"mode{mode}",
                 if wm > 0 then "multi_candidate_choice" else "single_candidate",
                 if dl > 0 then "delays" else "nodelay", if delay > 0 then "delay_enabled" else "delay_off"] ++
